@@ -18,6 +18,7 @@ import re
 import subprocess
 
 from translator import notify
+from translator import C14_mutators as mutators
 from vlib import common
 
 IMPL = os.path.join(common.VERIF, "corr", "C14_impl.py")
@@ -190,6 +191,8 @@ def coq_op(typ, op):
         return "ONewMesh"
     if k == "param":
         return "OParam %s" % b(op.get("sub", False))
+    if k == "assignC":
+        return "OParam true"
     if k == "param_arr":
         return "OParamArr %s %s" % (b(op.get("sub", False)), b(op.get("same", False)))
     if k == "move":
@@ -521,9 +524,34 @@ def systematic_cases():
     return out
 
 
+# ---- coverage audit lists (translator/C14_mutators.py enumerates the public mutators from the source) ------------------------
+# mutators that are ops / observations of the Coq model (by name: overrides in subclasses included)
+MODELLED_MUTATORS = {
+    "mesh (setter)", "Save_Iter", "Set_Iter", "Solve", "Get_K_C_M_F", "Need_Update", "Construct_local_matrix_system", "Result",
+    "Solver_Set_Elliptic_Algorithm", "Solver_Set_Parabolic_Algorithm", "Solver_Set_Hyperbolic_Algorithm",   # OAlgo
+    "add_neumann", "add_lineLoad", "add_surfLoad", "add_pressureLoad", "add_volumeLoad",                       # ONeumann
+}
+# reviewed: cannot influence the assembled system or the results (reason recorded in the evidence)
+NEUTRAL_MUTATORS = {
+    ("_Simu", "folder (setter)"): "where iterations are written (C15), not what is computed",
+    ("_Simu", "solver (setter)"): "choice of the linear solver: read at every solve, nothing derived from it is cached",
+    ("PhaseField", "Results_Set_Bc_Summary"): "text summary", ("PhaseField", "Results_Set_Iteration_Summary"): "text summary",
+    ("PhaseField", "Get_lb_ub"): "bounds recomputed from the current damage at every call",
+    ("PhaseField", "Results_dict_Energy"): "observation", ("InElastic", "Results_dict_Energy"): "observation",
+    ("HyperElastic", "Solver_Set_Stress"): "read at every Newton assembly, which always reassembles (entry t_newton_need)",
+    ("InElastic", "dt (setter)"): "read at every Newton assembly, which always reassembles",
+    ("_HyperElastic", "Set_active_stress_vec"): "read at every Newton assembly; no simulation-level cache may depend on the model (entry 34)",
+    ("HyperElasticState", "matrixType (setter)"): "transient evaluation object, not a model or a simulation",
+    ("_Elastic", "Get_sqrt_C_S"): "fills the derived cache covered by entry t_model_cache_refresh",
+}
+NEUTRAL_CLASSES = {"DIC"}   # not a _Simu: outside the harness (stated in docs)
+
 # directed probes with their own key: behaviour that is specific to one simulation class (not expressible in the
 # class-independent table); a value mismatch with the fresh simulation is reported under the probe's key
 PROBES = [
+    {"key": "unlisted-mutator:_Elastic.C (setter)", "type": "Elastic", "opts": {},
+     "what": "direct assignment `mat.C = newC` through the public setter of the elastic law (stores the matrix, no notification)",
+     "ops": [NS, DIR2, LOAD, SOLVE, {"op": "assignC", "factor": 0.5}]},
     {"key": "mesh-replacement-not-converted:Beam", "type": "Beam", "opts": {},
      "what": "simu.mesh = <mesh produced by the mesher> on a Beam simulation (the SEG groups are converted to beam elements only in __init__)",
      "ops": BEAM_PRE + [SOLVE, {"op": "newmesh", "lx": 1.5}, {"op": "setmesh", "i": 0, "m": 1}] + BEAM_PRE[1:]},
@@ -731,6 +759,38 @@ def run(ctx):
                     {"replay_py": replay_snippet(c), "table_entry": name, "source": src, "obligation": "C14_table_ok", "ops": c["ops"]}, found_input=False)
     elif not r1.ok:
         ctx.violation("proof-broken:C14_fresh.v", "C14_fresh.v no longer checks although every table entry is as required", {"log": r1.log[-3000:]}, found_input=False)
+    # 4a. coverage audit: every PUBLIC mutator of the observed classes is modelled, self-invalidating or reviewed-neutral ------
+    try:
+        aud = mutators.audit(ctx.repo)
+    except (OSError, SyntaxError) as ex:
+        aud = None
+        ctx.obligation("audit:public-mutators", False, str(ex))
+        ctx.violation("audit", "the public-mutator audit cannot parse the source: %s" % ex, {}, found_input=False)
+    if aud is not None:
+        counts = {"self-invalidating": 0, "modelled": 0, "neutral": 0, "unlisted": 0}
+        unlisted = []
+        for cname, d in aud.items():
+            cshort = cname.split(" ")[0]
+            for mname, info in d.items():
+                if "Need_Update" in info["reaches"] or "_Notify" in info["reaches"]:
+                    counts["self-invalidating"] += 1
+                elif mname in MODELLED_MUTATORS or (cshort, mname) in MODELLED_MUTATORS:
+                    counts["modelled"] += 1
+                elif (cshort, mname) in NEUTRAL_MUTATORS or cshort in NEUTRAL_CLASSES:
+                    counts["neutral"] += 1
+                else:
+                    counts["unlisted"] += 1
+                    unlisted.append((cname, mname, info))
+        ctx.cov["public_mutators"] = counts
+        ctx.cov["public_mutators_neutral_reasons"] = {"%s.%s" % k_: v_ for k_, v_ in NEUTRAL_MUTATORS.items()}
+        ctx.obligation("audit:public-mutators", not unlisted, "%s" % counts if not unlisted else "; ".join("%s.%s" % (c_, m_) for c_, m_, _ in unlisted[:6]))
+        probe_keys = {p_["key"] for p_ in PROBES}
+        for cname, mname, info in unlisted:
+            key = "unlisted-mutator:%s.%s" % (cname.split(" ")[0], mname)
+            if key in probe_keys:
+                continue   # reported by its probe, with a failing input
+            ctx.violation(key, "public mutator %s.%s (line %d) assigns state of the object but neither reaches Need_Update/_Notify nor is modelled by the notification table nor is in the reviewed list of neutral mutators (reaches: %s)" % (
+                cname, mname, info["line"], info["reaches"]), {"mutator": mname, "class": cname, "obligation": "audit:public-mutators"}, found_input=False)
     # 4b. class-specific probes ------------------------------------------------------------------------------------------------
     try:
         pres = run_impl(ctx, [{"type": p_["type"], "opts": p_["opts"], "ops": p_["ops"]} for p_ in PROBES])
